@@ -9,7 +9,7 @@ namespace RbV.Rs
 open Res
 
 /-- `iter.step_by(k)` on an iterator yielding `l`: the items at positions `0, k, 2k, …` (`k = 0` panics) -/
-def stepBy {α : Type} (l : List α) (k : Nat) : Res (List α) :=
+def stepByIdx {α : Type} (l : List α) (k : Nat) : Res (List α) :=
   if k = 0 then panic else ok ((List.range ((l.length + k - 1) / k)).filterMap (fun j => l[j * k]?))
 
 /-- `v.resize(n, x)` -/
@@ -36,10 +36,10 @@ def unwrap {α : Type} (o : Option α) : Res α :=
   | some a => ok a
   | none => panic
 
-theorem stepBy_ok {α : Type} {l : List α} {k : Nat} (h : 0 < k) :
-    stepBy l k = ok ((List.range ((l.length + k - 1) / k)).filterMap (fun j => l[j * k]?)) := by
+theorem stepByIdx_ok {α : Type} {l : List α} {k : Nat} (h : 0 < k) :
+    stepByIdx l k = ok ((List.range ((l.length + k - 1) / k)).filterMap (fun j => l[j * k]?)) := by
   have : k ≠ 0 := by omega
-  simp [stepBy, this]
+  simp [stepByIdx, this]
 
 @[simp] theorem unwrap_some {α : Type} (a : α) : unwrap (some a) = ok a := rfl
 @[simp] theorem unwrap_none {α : Type} : unwrap (none : Option α) = panic := rfl
